@@ -405,7 +405,7 @@ impl StoryState {
 
         if has_patch {
             let curr_count = self.visit_count_for_container(container);
-            let new_count = curr_count + 1;
+            let new_count = curr_count.wrapping_add(1);
             self.patch
                 .as_mut()
                 .unwrap()
@@ -418,7 +418,7 @@ impl StoryState {
                 count = existing_count;
             }
 
-            count += 1;
+            count = count.wrapping_add(1);
             self.visit_counts.insert(container_path_str, count);
         }
     }
@@ -938,7 +938,7 @@ impl StoryState {
         self.set_current_pointer(new_pointer);
 
         if incrementing_turn_index {
-            self.current_turn_index += 1;
+            self.current_turn_index = self.current_turn_index.wrapping_add(1);
         }
 
         Ok(())
@@ -1148,14 +1148,14 @@ impl StoryState {
         if let Some(patch) = self.patch.as_ref()
             && let Some(index) = patch.get_turn_index(container)
         {
-            return Ok(self.current_turn_index - index);
+            return Ok(self.current_turn_index.wrapping_sub(*index));
         }
 
         let container_path_str = Object::get_path(container).to_string();
 
         if self.turn_indices.contains_key(&container_path_str) {
             let index = *self.turn_indices.get(&container_path_str).unwrap();
-            Ok(self.current_turn_index - index)
+            Ok(self.current_turn_index.wrapping_sub(index))
         } else {
             Ok(-1)
         }
